@@ -81,8 +81,10 @@ def run(cx):
     nsch = cx.n(90, 500)
     per = cx.n(5, 20)
     schemas, cases = [], load_corpus(cx)
-    for i in range(nsch):
-        s = vg.gen_schema_x(rng, i, max_depth=rng.choice([2, 3, 3]))
+    nnest = cx.n(30, 150)
+    for i in range(nsch + nnest):
+        # the last `nnest` schemas: nested choices next to constrained siblings of the outer case (directed family)
+        s = vg.gen_schema_x(rng, i, max_depth=rng.choice([2, 3, 3])) if i < nsch else vg.gen_schema_nested(rng, i)
         schemas.append(s)
         r = cx.sub_rng("inst%d" % i)
         # mostly small sibling lists; every eighth schema gets wide ones (sibling count far above the schema depth)
